@@ -248,6 +248,10 @@ func (x *Exec) open(cfg Cfg) (f *Fail) {
 	}
 	if cfg.AllocSize != 0 {
 		db.AllocSize = cfg.AllocSize
+	} else if cfg.InitialMmapSize > 64<<10 && cfg.MaxSize == 0 {
+		// With a large initial map and the default AllocSize (16 MiB) the first growth extends the data file to the
+		// whole map size; the explorations hash and decode the file after every step, so keep it small.
+		db.AllocSize = 16 << 10
 	}
 	db.StrictMode = cfg.StrictMode
 	x.DB = db
@@ -291,6 +295,21 @@ func trimStack(b []byte) string {
 		}
 	}
 	return strings.Join(out, " | ")
+}
+
+// coherent compares the mirror mapping with the real file (a stray store into the mapping, or a harness bug, shows here).
+func (x *Exec) Coherent() *Fail {
+	if x.DB == nil || x.Poisoned {
+		return nil
+	}
+	file, err := os.ReadFile(x.Path)
+	if err != nil {
+		return nil
+	}
+	if err := MirrorCoherent(x.DB, file); err != nil {
+		return &Fail{Kind: "mismatch", At: -1, Msg: "memory mapping and data file differ: " + err.Error()}
+	}
+	return nil
 }
 
 // Close ends all transactions and closes the database (best effort).
@@ -492,6 +511,9 @@ func (x *Exec) Do(op Op) (f *Fail) {
 		}
 		if x.W != nil {
 			return mm("harness: reopen with open writer")
+		}
+		if f := x.Coherent(); f != nil {
+			return f
 		}
 		if err := x.DB.Close(); err != nil {
 			return mm("Close: %v", err)
@@ -869,6 +891,11 @@ func (x *Exec) Run(p []Op) *Fail {
 
 // FileBytes returns the current file content.
 func (x *Exec) FileBytes() []byte {
+	if x.DB != nil && !x.Poisoned {
+		if b, ok := MirrorBytes(x.DB); ok {
+			return b
+		}
+	}
 	b, err := os.ReadFile(x.Path)
 	if err != nil {
 		panic(err)
